@@ -13,6 +13,9 @@ verdict, evidence, replay file.
 import fcntl, hashlib, json, os, re, shutil, subprocess, sys, time
 
 VERIF = os.path.dirname(os.path.dirname(os.path.abspath(__file__)))
+# self-tests against seeded changes (tools/seedtest.py, VERIF_REPO set) write their
+# evidence elsewhere so that evidence/ always describes runs on /repo itself
+EVIDENCE_DIR = os.environ.get("VERIF_EVIDENCE_DIR") or os.path.join(VERIF, "evidence")
 REPO = os.environ.get("VERIF_REPO", "/repo")
 LEAN = os.path.join(VERIF, "lean")
 WORK = os.path.join(VERIF, ".work")
@@ -249,7 +252,7 @@ def check(pid, tier, replay=None):
     seed = int(os.environ.get("VERIF_SEED", "1"))
     thorough = tier == "thorough"
     os.makedirs(BIN, exist_ok=True)
-    os.makedirs(os.path.join(VERIF, "evidence"), exist_ok=True)
+    os.makedirs(EVIDENCE_DIR, exist_ok=True)
     os.makedirs(os.path.join(VERIF, "replays"), exist_ok=True)
     workdir = os.path.join(WORK, f"run-{os.getpid()}")
     os.makedirs(workdir, exist_ok=True)
@@ -480,7 +483,7 @@ def check(pid, tier, replay=None):
             wall_s=round(wall, 2),
             violations=(len(unlisted) if unlisted else (1 if violation else 0)),
         )
-        json.dump(ev, open(os.path.join(VERIF, "evidence", pid + ".json"), "w"), indent=1)
+        json.dump(ev, open(os.path.join(EVIDENCE_DIR, pid + ".json"), "w"), indent=1)
         print(f"{pid} {tier}: theorems {len(discharged)}/{len(all_ths)} checked; "
               f"{evaluations} cases, {sum(s['n_disagreements'] for s in stream_stats.values())} model/code disagreements, "
               f"{len(failures)} oracle failures ({len(unlisted)} unlisted); {wall:.1f}s")
